@@ -4,5 +4,7 @@ import DnsVerif.Props.C02
 #print axioms DnsVerif.Props.C02.O3_sandwich
 #print axioms DnsVerif.Props.C02.O4_commonPrefix
 #print axioms DnsVerif.Props.C02.O4_lengthWithoutLastLabel
+#print axioms DnsVerif.Props.C02.findMapSorted_eq_findMapV1
+#print axioms DnsVerif.Props.C02.findMapSorted_spec
 #print axioms DnsVerif.Props.C02.marker_order_facts
 #print axioms DnsVerif.Props.C02.featuresKey_above
